@@ -33,13 +33,18 @@ class _RemoveOptionalBias(RewriteRuleClassBase):
             MatchResult:
                 Success if we need to replace the pattern, Failure otherwise.
         """
-        del context  # Unused
         check_result = MatchResult()
 
         # Check if bias is a constant/initializer
         bias_tensor = ir.convenience.get_const_tensor(b)
-        if bias_tensor is None:
+        if bias_tensor is None or b.is_graph_input():
             return check_result.fail("Bias is not a constant/initializer.")
+
+        # Gemm: input C became optional in opset 11
+        if self.op_type == "Gemm":
+            opset_version = context.model.opset_imports.get("")
+            if opset_version is not None and opset_version < 11:
+                return check_result.fail("Gemm requires input C before opset 11.")
 
         # Check if bias is all zeros
         bias_array = bias_tensor.numpy()
